@@ -73,7 +73,11 @@ impl TraceSlider {
 
     pub(crate) fn set_position_and_len(&mut self, position: TracePos, subtrace_len: TraceLen) -> KeeperResult<()> {
         // it's possible to set empty subtrace_len and inconsistent position
-        if subtrace_len != 0 && position + subtrace_len > self.trace.trace_states_count().into() {
+        let out_of_trace = match u32::from(position).checked_add(subtrace_len) {
+            Some(end) => end > self.trace.trace_states_count(),
+            None => true,
+        };
+        if subtrace_len != 0 && out_of_trace {
             return Err(SetSubtraceLenAndPosFailed {
                 requested_pos: position,
                 requested_subtrace_len: subtrace_len,
